@@ -554,3 +554,26 @@ func parseExport(b []byte) ([]map[string]interface{}, error) {
 	}
 	return out, nil
 }
+
+// RawKeys: every key of the store, in cursor order.
+func (im *Impl) RawKeys() []string {
+	tx, err := im.xs.inner.Begin(false)
+	if err != nil {
+		return nil
+	}
+	defer tx.Rollback()
+	cur, err := tx.Cursor(true)
+	if err != nil {
+		return nil
+	}
+	defer cur.Close()
+	out := []string{}
+	for cur.Seek([]byte{}); cur.Valid(); cur.Next() {
+		it, err := cur.Item()
+		if err != nil {
+			return out
+		}
+		out = append(out, string(it.Key))
+	}
+	return out
+}
